@@ -6,11 +6,27 @@ use std::collections::BTreeMap;
 
 // ------------------------------------------------------------------ paths
 
-/// Lexical normalisation of a `/`-separated path: removes `.`, resolves `..`
-/// (never above the root of an absolute path), collapses `//`.
+thread_local! {
+    /// symbolic links of the simulated file system of the current run: (link path, target path),
+    /// both absolute and normalised.  Empty outside cli-sim runs with a symlinked layout.
+    static LINKS: std::cell::RefCell<Vec<(String, String)>> = const { std::cell::RefCell::new(Vec::new()) };
+}
+
+pub fn set_links(links: &[(String, String)]) {
+    LINKS.with(|l| *l.borrow_mut() = links.to_vec());
+}
+
+/// Normalisation of a `/`-separated path: removes `.`, resolves `..` (never above the root of
+/// an absolute path), collapses `//`.  Lexical, unless the current run has symbolic links: then
+/// an absolute path is resolved the way the kernel does it, component by component, following
+/// the links - the result names the physical file.
 pub fn norm(path: &str) -> String {
+    LINKS.with(|l| norm_with(path, &l.borrow()))
+}
+
+pub fn norm_with(path: &str, links: &[(String, String)]) -> String {
     let abs = path.starts_with('/');
-    let mut stack: Vec<&str> = Vec::new();
+    let mut stack: Vec<String> = Vec::new();
     for c in path.split('/') {
         match c {
             "" | "." => {}
@@ -22,10 +38,18 @@ pub fn norm(path: &str) -> String {
                     }
                 }
                 if !abs {
-                    stack.push("..");
+                    stack.push("..".into());
                 }
             }
-            c => stack.push(c),
+            c => {
+                stack.push(c.to_string());
+                if abs && !links.is_empty() {
+                    let cur = format!("/{}", stack.join("/"));
+                    if let Some((_, target)) = links.iter().find(|(l, _)| *l == cur) {
+                        stack = target.split('/').filter(|x| !x.is_empty()).map(String::from).collect();
+                    }
+                }
+            }
         }
     }
     let body = stack.join("/");
@@ -47,6 +71,40 @@ pub fn basename(path: &str) -> &str {
     }
 }
 
+/// The path under which the user sees a physical path (inverse of following the links).
+pub fn to_logical(path: &str) -> String {
+    LINKS.with(|l| {
+        for (link, target) in l.borrow().iter() {
+            if path == target {
+                return link.clone();
+            }
+            if let Some(rest) = path.strip_prefix(&format!("{target}/")) {
+                return format!("{link}/{rest}");
+            }
+        }
+        path.to_string()
+    })
+}
+
+/// What a relative reference `spec` written in the (physical) file `from_file` may designate:
+/// resolved from the file's physical directory, and - when the file lives below a symbolic link -
+/// resolved lexically from the directory under which the user sees the file.  Without links
+/// the two coincide.  (`..` across a link is a different place for the kernel than for a lexical
+/// resolver; no statement about nitrogql says which one a relative path means.)
+pub fn resolve_candidates(from_file: &str, spec: &str) -> Vec<String> {
+    let mut v = vec![resolve_from_file(from_file, spec)];
+    let logical = to_logical(from_file);
+    if logical != from_file && !spec.starts_with('/') {
+        // lexical join first (no links), then the physical name of the result
+        let lexical = norm_with(&format!("{}/{}", dirname(&logical), spec), &[]);
+        let c = norm(&lexical);
+        if !v.contains(&c) {
+            v.push(c);
+        }
+    }
+    v
+}
+
 /// Resolve `spec` relative to the *file* `from_file`.
 pub fn resolve_from_file(from_file: &str, spec: &str) -> String {
     if spec.starts_with('/') {
@@ -57,8 +115,9 @@ pub fn resolve_from_file(from_file: &str, spec: &str) -> String {
 
 /// Independent `relative(from_file, to)`: used only to *generate* spellings.
 pub fn relative_spec(from_file: &str, to: &str) -> String {
-    let f = norm(dirname(from_file));
-    let t = norm(to);
+    // (purely lexical: it produces what a user would type)
+    let f = norm_with(dirname(from_file), &[]);
+    let t = norm_with(to, &[]);
     let fc: Vec<&str> = f.split('/').filter(|c| !c.is_empty()).collect();
     let tc: Vec<&str> = t.split('/').filter(|c| !c.is_empty()).collect();
     let mut k = 0;
